@@ -100,7 +100,8 @@ PROPS = {
                       "the decoder never panics (C05), so with the driver's own budget every strict prefix is exactly an error — "
                       "not a value, not a panic — through the reference decoder and through the faithful context (prefix_is_error, "
                       "prefix_is_error_faithful); the same for a prefix of what another (aligned) version of the definition wrote, "
-                      "whenever the data carries a header (cross_prefix_rejected, cross_prefix_is_error).",
+                      "whenever the data carries a header (cross_prefix_rejected, cross_prefix_is_error), and for the unknown-length "
+                      "sequence form (unknown_form_prefix_rejected).",
         "level_note": V0_NOTE,
     },
 
